@@ -6,7 +6,7 @@ from . import estprops
 def _hist(ctx):
     # history() clauses (C16_hist_*) are judged on the carver traces
     cc.design_runs(ctx, ['Inv_C16_hist'])
-    cc.carver_pipeline(ctx, 'C16_', n_random_quick=250, n_random_thorough=8000, exhaustive=(ctx.tier != 'quick'))
+    cc.carver_pipeline(ctx, 'C16_', n_random_quick=250, n_random_thorough=2500, exhaustive=(ctx.tier != 'quick'))
 
 
 def run(ctx):
